@@ -509,6 +509,11 @@ func symLower(fr *frame, s *Term) value {
 	if s.Op == "uf" && s.S == "u_lower" {
 		return s
 	}
+	if noUpperCaseTerm(fr.i.m, s) {
+		// (agentB) every part is a constant without upper-case letters or an input whose declared alphabet
+		// excludes A-Z: lower-casing is the identity, no UF (the UF plus its regex axiom makes cvc5 answer unknown)
+		return strVal(s)
+	}
 	u := mkUF("u_lower", SStr, s)
 	fr.i.m.assume(mkEq(mkLen(u), mkLen(s)))
 	fr.i.m.assume(mkEq(mkUF("u_lower", SStr, u), u))
